@@ -107,9 +107,9 @@ func (r *Run) Execute() int {
 	reserve := map[string][]*Query{}
 	for _, u := range units {
 		for _, o := range u.Obligations() {
-			if r.Prop != "all" && len(o.Props) > 0 && !hasProp(o.Props, r.Prop) {
-				continue
-			}
+			// every obligation of a function the property depends on is checked: clause-level property tags name
+			// the clauses that state the property, they do not restrict what is proved (a gap in the tags would
+			// otherwise be a gap in the check)
 			if r.ObFilter != "" && !strings.Contains(o.Name, r.ObFilter) {
 				continue
 			}
